@@ -113,6 +113,49 @@ pub fn case(ctx: &Ctx, idx: u64) -> CaseOut {
             out.viol("C16", "optimised.cycles_not_carried", format!("type {}: schedule after the optimisation stage does not carry the optimiser's cycles", inst.types[t].id));
         }
     }
+    // the cycles the answer is built on are a fixpoint of the optimiser stage for EVERY type:
+    // an independent re-run of the real optimiser (same tours, i.e. the search result) started
+    // from them accepts nothing. A type whose optimisation was skipped, lost or overwritten
+    // between the optimiser and the stage snapshot shows up here even if all recorded snapshots
+    // agree with each other.
+    {
+        use solver::transition_local_search::{build_transition_local_search_solver, TransitionWithInfo};
+        use rapid_solve::heuristics::Solver;
+        let s1_schedule = &rec.stages[2].1;
+        let s2_schedule = &rec.stages[3].1;
+        let net = s1_schedule.get_network();
+        match guard(|| build_transition_local_search_solver(s1_schedule, net.clone())) {
+            Err(p) => out.inconclusive.push(format!("re-run of the transition optimiser could not be built ({})", p.sig())),
+            Ok(solver) => {
+                for t in 0..inst.types.len() {
+                    let carried = s2_schedule.next_day_transition_of(vt(t)).clone();
+                    let before = (carried.maintenance_violation(), carried.maintenance_counter());
+                    match guard(|| solver.solve(TransitionWithInfo::new(carried.clone(), "re-run".to_string())).unwrap().unwrap_transition()) {
+                        Err(p) => out.inconclusive.push(format!("re-run of the transition optimiser panicked ({})", p.sig())),
+                        Ok(again) => {
+                            let after = (again.maintenance_violation(), again.maintenance_counter());
+                            out.count("optimiser_reruns", 1);
+                            let searched = s1.transitions[t].canonical() != s2.transitions[t].canonical();
+                            out.count("optimiser_reruns_on_changed_type", searched as u64);
+                            if after < before {
+                                out.viol(
+                                    "C16",
+                                    "optimised.not_a_fixpoint_of_the_optimiser",
+                                    format!(
+                                        "type {}: the cycles carried by the answer {:?} have (violation, counter) {:?}, re-running the transition optimiser from them on the search result's tours still improves to {:?}: the optimiser's result for this type did not reach the answer",
+                                        inst.types[t].id,
+                                        s2.transitions[t].canonical(),
+                                        before,
+                                        after
+                                    ),
+                                );
+                            }
+                        }
+                    }
+                }
+            }
+        }
+    }
     // final schedule: activities of S1, start depots unchanged, cycles T*, end depots follow T*
     if activities(s3) != activities(s1) {
         out.viol("C16", "final.activities_differ_from_search_result", "activities per vehicle of the final schedule are not those of the local-search result".to_string());
